@@ -605,6 +605,15 @@ func TestC15Orders(t *testing.T) {
 		}
 		picked = append(picked, c)
 	}
+	// pairs of calls whose arguments read the same once written one after the other without a delimiter (payload "A3"
+	// with 3 % against payload "A" with 33 %): a memo whose key is such a concatenation confuses exactly these
+	for _, q := range [][4]any{{"A", 33, "A3", 3}, {"AZTEC 1", 25, "AZTEC 12", 5}, {"x", 90, "x9", 0}, {"7", 71, "77", 1}, {"code 10", 10, "code 101", 0}, {"\x80", 23, "\x802", 3}} {
+		for _, layers := range []int{0, 4, -3} {
+			a := EncSpec{Fam: "aztec", Content: BStr(q[0].(string)), A: q[1].(int), B: layers}
+			b := EncSpec{Fam: "aztec", Content: BStr(q[2].(string)), A: q[3].(int), B: layers}
+			picked = append(picked, HistoryCase{Calls: []EncSpec{a, b}}, HistoryCase{Calls: []EncSpec{b, a}})
+		}
+	}
 	// twins of intermediate representations (QR codeword streams with equal 32-bit digests) as two-call histories
 	for _, vl := range [][2]int{{2, 1}, {5, 2}} {
 		for _, p := range qrStreamTwins(vl[0], vl[1], 1) {
